@@ -17,6 +17,20 @@ CLAIMED = {
          "range/iteration observers.",
     technique="TLA+ refinement model checked by TLC; state-graph replay into IntSet<T>; ndjson trace validation by TLC",
     design="4/C14"),
+ "C06": dict(
+    category="model_checking",
+    text="Sfnt.tla states the container rules from the OpenType specification (directory, alignment, padding, "
+         "checksums over 16-bit limbs, head adjustment, whole-file checksum) with its own parser; TLC checks that a "
+         "reference output satisfies them for every table map over a boundary tag/blob catalogue (M), every "
+         "add_raw/copy_missing_tables edge of that state graph is replayed on the real FontBuilder and judged "
+         "through read-fonts, all histories reaching one table map must build identical bytes (order independence), "
+         "and recorded outputs (replayed edges and random histories with random tags) are parsed and judged by "
+         "Sfnt!WellFormed in TLC, independently of read-fonts (V).",
+    note="Trusted: TLC, the hand-written source fonts used for copy_missing_tables. Blobs <= 60 bytes, <= 4 "
+         "tables in the exhaustive part, <= 8 calls per random history; physical order and searchRange fields are "
+         "deliberately not judged (not in the property).",
+    technique="TLA+ container semantics + builder state machine checked by TLC; state-graph replay; trace validation with spec-side sfnt parser",
+    design="4/C06"),
 }
 
 NOT_APPLICABLE = {
